@@ -105,6 +105,10 @@ def gen_program(rng):
         if r < 0.62:
             return ["call", "<func>sc", [a], []]
         if r < 0.7:
+            if rng.random() < 0.4:
+                # an INTEGER base (a product of counters, + 1: positive) to a fractional power: a real number
+                i1, i2 = pick("int") or ["c", 2], pick("int") or ["c", 3]
+                return ["**", ["+", [["*", [i1, i2]], ["c", 1]]], ["cf", "0.5"]]
             return ["**", a, ["c", 2]]
         if r < 0.78:
             # Python's min/max return one of their arguments: keep both of one class (the model reports the join)
@@ -131,6 +135,9 @@ def gen_program(rng):
             e = rng.choice([["*", [pick("real"), ["cz", "1j"]]], ["+", [pick("real"), ["cz", "2j"]]],
                             ["*", [pick("real"), ["cz", "(2+0j)"]]], ["+", [pick("real"), ["cz", "(1+0j)"]]],
                             ["call", "<func>cx", [pick("real")], []],
+                            # a real base to a COMPLEX power: complex (the exponent's kind must flow into the result)
+                            ["**", ["cf", "2.5"], ["*", [pick("real"), ["cz", "1j"]]]],
+                            ["**", ["cf", "1.5"], ["cz", "0.5j"]],
                             ["*", [pick("cplx") or ["cz", "1j"], pick("real")]]])
             prog.append([n, None, e, []])
             env[n] = "cplx"
